@@ -18,6 +18,7 @@
 package c10
 
 import (
+	"syscall"
 	"debug/elf"
 	"debug/gosym"
 	"fmt"
@@ -213,6 +214,26 @@ func buildTruth(sub string) *truth {
 	if !isPIE {
 		// link address == run-time address: the pclntab names can be joined with the runtime table
 		pt := readPclntab(f)
+		if sub == "cgo" {
+			// externally linked: the text start recorded in the pclntab header differs from runtime.text
+			// by a constant; measure it on a known function and shift the whole table
+			known := c10vars.Funcs()[0]
+			var delta int64
+			found := false
+			for e, n := range pt {
+				if n == known.Name {
+					delta, found = int64(known.PC)-int64(e), true
+				}
+			}
+			if !found {
+				vk.Fatalf("known function %s not in the pclntab", known.Name)
+			}
+			shifted := map[uintptr]string{}
+			for e, n := range pt {
+				shifted[uintptr(int64(e)+delta)] = n
+			}
+			pt = shifted
+		}
 		if pt == nil {
 			vk.Fatalf("non-PIE binary without .gopclntab")
 		}
@@ -236,7 +257,7 @@ func buildTruth(sub string) *truth {
 			}
 		}
 		// mandatory resolution (default link mode): unambiguous pclntab names
-		if sub == "default" {
+		if sub == "default" || sub == "cgo" {
 			cnt := map[string]int{}
 			for _, n := range pt {
 				cnt[n]++
@@ -269,7 +290,8 @@ func buildTruth(sub string) *truth {
 
 	// variables
 	secOf := map[string]string{}
-	if sub == "default" {
+	withSyms := sub == "default" || sub == "cgo"
+	if withSyms {
 		syms, err := f.Symbols()
 		if err != nil {
 			vk.Fatalf("ELF symbols: %v", err)
@@ -306,7 +328,7 @@ func buildTruth(sub string) *truth {
 	}
 	t.nGenVars = len(gen)
 	for _, v := range gen {
-		if sub == "default" {
+		if withSyms {
 			// the ELF entry must agree with &v, otherwise the premise "value == address" is wrong
 			as := t.syms[v.Name]
 			if len(as) != 1 || as[0] != v.Addr {
@@ -442,7 +464,14 @@ func Run(c *vk.Ctx) {
 	if sub == "" {
 		sub = "default"
 	}
+	fault := strings.HasSuffix(sub, "-fault")
+	sub = strings.TrimSuffix(sub, "-fault")
 	t := buildTruth(sub)
+	if fault && c.Replay == "" {
+		runFault(c, t, sub)
+		c.Finish()
+		return
+	}
 	if c.Replay != "" {
 		var cs Case
 		c.LoadReplay(&cs)
@@ -514,4 +543,61 @@ func Run(c *vk.Ctx) {
 	ex["n_mutations_not_applicable"] = nMutSkipped
 	ex["n_mutants_that_are_table_entries"] = nMutIsEntry
 	c.Finish()
+}
+
+// runFault: environment-fault sequences. The shard index encodes which of the first three
+// lookups of the process find the executable unopenable (RLIMIT_NOFILE = 0 around the call: a
+// transient EMFILE); afterwards every known function and generated variable is looked up. In
+// every step the answer must be an error or the exact address (a present symbol may fail here:
+// the statement allows errors when the table cannot be read).
+func runFault(c *vk.Ctx, t *truth, sub string) {
+	pattern := c.Shard
+	known := c10vars.Funcs()
+	gen := c10vars.Vars()
+	var old syscall.Rlimit
+	if err := syscall.Getrlimit(syscall.RLIMIT_NOFILE, &old); err != nil {
+		vk.Fatalf("getrlimit: %v", err)
+	}
+	judge := func(cs Case) {
+		c.Res.Evaluations++
+		c.Res.Transitions++
+		class, desc, resolved := t.judge(cs)
+		if resolved {
+			c.Distinct(cs.API + "\x00" + cs.Query)
+		}
+		if class == "" || class == "present-symbol-not-resolved" {
+			return
+		}
+		c.Violate(fmt.Sprintf("link=%s fault-pattern=%03b api=%s class=%s", sub, pattern, cs.API, class), desc+fmt.Sprintf(" (after fault pattern %03b on the first three lookups)", pattern), cs)
+	}
+	for i := 0; i < 3; i++ {
+		faulty := pattern>>uint(i)&1 == 1
+		if faulty {
+			lim := old
+			lim.Cur = 0
+			if err := syscall.Setrlimit(syscall.RLIMIT_NOFILE, &lim); err != nil {
+				vk.Fatalf("setrlimit: %v", err)
+			}
+		}
+		cs := Case{Sub: sub, API: apiFunc, Base: known[i%len(known)].Name, Query: known[i%len(known)].Name, Mutation: fmt.Sprintf("fault-step-%d", i)}
+		if i == 1 {
+			cs = Case{Sub: sub, API: apiVar, Base: gen[0].Name, Query: gen[0].Name, Mutation: "fault-step-1"}
+		}
+		judge(cs)
+		if faulty {
+			if err := syscall.Setrlimit(syscall.RLIMIT_NOFILE, &old); err != nil {
+				vk.Fatalf("setrlimit restore: %v", err)
+			}
+		}
+	}
+	for _, k := range known {
+		judge(Case{Sub: sub, API: apiFunc, Base: k.Name, Query: k.Name, Mutation: "after-faults"})
+	}
+	for _, v := range gen {
+		judge(Case{Sub: sub, API: apiVar, Base: v.Name, Query: v.Name, Mutation: "after-faults"})
+	}
+	c.Res.Traces++
+	c.Res.States++
+	c.Sample(map[string]interface{}{"sub": sub + "-fault", "fault_pattern": fmt.Sprintf("%03b", pattern)})
+	c.Res.Extra["fault_patterns"] = 8
 }
